@@ -46,6 +46,9 @@ def get_machine(key):
         from simphot.machines.catalog import CatalogMachine
         return CatalogMachine(variant or 'source')
     if pid == 'C09':
+        if variant == 'gridded':
+            from simphot.machines.psfmodel import PSFModelMachine
+            return PSFModelMachine('gridded', pid='C09')
         from simphot.machines.fresh import FreshMachine
         return FreshMachine(variant or 'background')
     if pid == 'C10':
@@ -67,7 +70,8 @@ VARIANTS = {
     'C08': [('C08:source', 0.65), ('C08:aperstats', 0.35)],
     'C09': [('C09:background', 0.2), ('C09:profile', 0.14),
             ('C09:aperture', 0.16), ('C09:psfphot', 0.25),
-            ('C09:finder', 0.1), ('C09:ellipse', 0.15)],
+            ('C09:finder', 0.08), ('C09:ellipse', 0.12),
+            ('C09:gridded', 0.05)],
     'C10': [('C10', 0.85), ('C10:fault', 0.15)],
     'C13': [('C13:image', 0.5), ('C13:gridded', 0.5)],
     'C19': [('C19:radial', 0.5), ('C19:cog', 0.5)],
